@@ -58,6 +58,8 @@ type RaftGroup struct {
 	raft          etcdRaft.Node
 	raftConfState *raftpb.ConfState
 	raftLeaderId  uint64
+	// This node has applied its own removal from the group (run loop only)
+	removedSelf   bool
 	wal           wal.WAL
 	log           *log.Entry
 }
@@ -306,7 +308,7 @@ func (this *RaftGroup) run() {
 				this.raftLeaderId = atomic.LoadUint64(&rd.SoftState.Lead)
 			}
 			if this.isLeader() {
-				this.transport.Send(this.ctx, this, rd.Messages)
+				this.transport.Send(this.ctx, this, this.outgoing(rd.Messages))
 			}
 			if err := this.wal.Save(rd.HardState, rd.Entries, rd.Snapshot); err != nil {
 				this.log.Fatal(err)
@@ -349,6 +351,24 @@ func (this *RaftGroup) isLeader() bool {
 	return this.LeaderId() == this.transport.NodeId()
 }
 
+// A leader that has applied its own removal hands the leadership over, but the hand-over
+// only completes if the chosen member has the whole log at that moment: the members stop
+// answering a node once they have applied its removal. Raft does not make the removed
+// leader step down either, and its heartbeats would keep the members from ever electing
+// a leader. From its removal on it sends nothing but the hand-over itself.
+func (this *RaftGroup) outgoing(messages []raftpb.Message) []raftpb.Message {
+	if !this.removedSelf {
+		return messages
+	}
+	kept := make([]raftpb.Message, 0)
+	for _, message := range messages {
+		if message.Type == raftpb.MsgTimeoutNow {
+			kept = append(kept, message)
+		}
+	}
+	return kept
+}
+
 func (this *RaftGroup) receive(message raftpb.Message) error {
 	return this.raft.Step(this.ctx, message)
 }
@@ -379,6 +399,10 @@ func (this *RaftGroup) processConfChange(entry raftpb.Entry) error {
 	}
 
 	this.raftConfState = this.raft.ApplyConfChange(cc)
+
+	if cc.NodeID == this.transport.nodeId {
+		this.removedSelf = cc.Type == raftpb.ConfChangeRemoveNode
+	}
 
 	if cc.Type == raftpb.ConfChangeRemoveNode && cc.NodeID == this.transport.nodeId && this.isLeader() {
 		// Raft does not make a removed leader step down: it keeps sending heartbeats (so
